@@ -4,17 +4,24 @@ package scen
 
 import (
 	"fmt"
+	"net"
 	"runtime"
+	"sync"
+	"sync/atomic"
 	"time"
+
+	"github.com/datastax/go-cassandra-native-protocol/message"
+	"github.com/datastax/go-cassandra-native-protocol/primitive"
 
 	"verif/mon"
 	"verif/px"
+	"verif/rawcql"
 )
 
 func init() {
 	Register(&Runner{Prop: "C18", Level: "exploration",
 		Rule:    "the concurrent scenario families of C01 (storm, mass death, gate-ordered deaths), C02 (reorder rounds, re-prepare race), C07 (concurrent USE), C08 (re-prepare on forgetful / late hosts), C14 (register/disconnect during bursts, failover) and C16 (topology changes, kills, mutes) run in a -race build on all cores, each repeated with different seeds; every 'WARNING: DATA RACE' block is collected (halt_on_error=0), deduplicated by the pair of top-most repository frames; distinct = (family, seed) runs; non-trivial = the family reached a contended hook point from >= 2 goroutines",
-		Shards:  shards(6, 12),
+		Shards:  shards(10, 12),
 		Timeout: timeouts(15*time.Minute, 90*time.Minute),
 		Race:    true,
 		Run:     runC18})
@@ -53,6 +60,7 @@ func c18Families() []c18Family {
 				c14History(c, rep*4+k)
 			}
 		}},
+		{"C16/topology-under-traffic", func(c *Ctx, rep int) { topologyUnderTraffic(c, rep) }},
 		{"C16/topology+heal", func(c *Ctx, rep int) {
 			c16Topology(c, rep, 4, []topoStep{{"add", 3}, {"remove", 2}, {"add", 4}, {"restart", 3}}, rep%2 == 0, false)
 			for k, f := range []string{"kill-pooled", "kill-control", "kill-all", "mute-pooled"} {
@@ -115,4 +123,72 @@ func runC18(c *Ctx) {
 			}
 		}
 	}
+}
+
+// topologyUnderTraffic: hosts leave and join (through the control connection's refresh) while paced clients keep
+// sending requests, so query plans are created and consumed while the load balancer and the sessions are updated.
+func topologyUnderTraffic(c *Ctx, rep int) {
+	r := c.R
+	c.Step("topology-under-traffic rep=%d", rep)
+	bed, err := px.NewBed(px.BedConfig{Hosts: 4, NumConns: 1 + rep%2, Keyspaces: []string{"ks1"}, Unlisted: []int{4}, RefreshWindow: 15 * time.Millisecond, ReconnectBase: time.Millisecond, ReconnectMax: 3 * time.Millisecond})
+	if err != nil {
+		r.Inconc("topology-under-traffic: cannot start bed: " + err.Error())
+		return
+	}
+	defer bed.Close()
+	bed.OnHook(nil)
+	stop := make(chan struct{})
+	var wg sync.WaitGroup
+	var sent int64
+	for i := 0; i < 16; i++ {
+		cl, err := bed.ReadyClient(primitive.ProtocolVersion4, "")
+		if err != nil {
+			continue
+		}
+		wg.Add(1)
+		go func(i int, cl *rawcql.Client) {
+			defer wg.Done()
+			defer cl.Close()
+			for k := 0; ; k++ {
+				select {
+				case <-stop:
+					return
+				case <-time.After(time.Duration(1+i%3) * time.Millisecond):
+				}
+				_, _ = cl.CallF(BuildRequest(primitive.ProtocolVersion4, int16(k%20000), KQuery, true, NewTok(), primitive.ConsistencyLevelOne), 5*time.Second)
+				atomic.AddInt64(&sent, 1)
+			}
+		}(i, cl)
+	}
+	peers := func() int {
+		n := 0
+		for _, e := range bed.Log.Snapshot() {
+			if e.Src == "backend" && e.K == "reply" && e.Outcome == "System:peers" {
+				n++
+			}
+		}
+		return n
+	}
+	step := func(host int, listed bool) {
+		before := peers()
+		bed.Cluster.SetListed(host, listed)
+		ct := primitive.TopologyChangeTypeRemovedNode
+		if listed {
+			ct = primitive.TopologyChangeTypeNewNode
+		}
+		bed.Cluster.Emit(&message.TopologyChangeEvent{ChangeType: ct, Address: &primitive.Inet{Addr: net.ParseIP(bed.Cluster.HostIP(host)), Port: int32(bed.Cluster.Port)}})
+		waitFor(func() bool { return peers() > before }, 5*time.Second)
+		time.Sleep(60 * time.Millisecond)
+	}
+	// removals of hosts that are not last in the sorted list, additions in between
+	step(2, false)
+	step(4, true)
+	step(3, false)
+	step(2, true)
+	step(3, true)
+	step(2, false)
+	close(stop)
+	wg.Wait()
+	r.Eval(int(sent))
+	r.Obs("topology_under_traffic_requests", int(sent))
 }
